@@ -16,7 +16,8 @@
 From Coq Require Import ZArith List Bool Arith.
 From CrabV Require Import Base.ZInf Scalar.Itv Ir.Syntax Ir.Cfg Dom.ItvEnv Dom.ItvEnvSound Dom.ItvDomain
      Fix.Wto Fix.Engine Fix.EngineCheck Ana.Transformer Ana.FwdItv Ana.FwdItvSound
-     Fix.WtoCheck Fix.WtoSound Fix.WtoRoot Fix.EngineBelow Fix.EngineRel Fix.EngineSound Ana.FwdItvEngineSound.
+     Fix.WtoCheck Fix.WtoSound Fix.WtoRoot Fix.EngineBelow Fix.EngineRel Fix.EngineSound Ana.FwdItvEngineSound
+     Fix.Thresholds Fix.WtoThresholds Ana.FwdItvLive Ana.FwdItvFullSound.
 Import ListNotations.
 
 Theorem C01_statement_transformer_sound : forall s e a b,
@@ -176,3 +177,96 @@ Print Assumptions C01_statement_transformer_sound.
 Print Assumptions C01_block_transformer_sound.
 Print Assumptions C01_checked_tables_sound.
 Print Assumptions C01_bottom_block_never_entered.
+
+(* ---- all configurations of intra_fwd_analyzer (Ana/FwdItvLive.v, Ana/FwdItvFullSound.v):
+   widening with the thresholds collected by the mirror of wto_thresholds (Fix/WtoThresholds.v)
+   for ANY max_thresholds, and liveness pruning (dead variables of the C18 liveness model
+   forgotten at the end of each block).  Add to the imports:
+     Fix.Thresholds Fix.WtoThresholds Ana.FwdItvLive Ana.FwdItvFullSound.
+   No hypothesis on the thresholds, on the dead sets, or on the liveness analysis. ---- *)
+(* forgetting any set of variables after a block is sound *)
+Theorem C01_pruned_block_transformer_sound : forall dead bl e a b,
+  block_wf bl -> genv e a -> bstep bl a b -> genv (tr_block_pruned dead bl e) b.
+Proof. exact tr_block_pruned_sound. Qed.
+Print Assumptions C01_pruned_block_transformer_sound.
+
+(* the analyzer as the C++ configures it: max_thresholds = maxthr (0: plain widening), liveness
+   pruning iff live (liveness of the CFG with exit block ex), ordering built from e0, analysis
+   started at any block of the ordering *)
+Theorem C01_engine_sound_thresholds_liveness :
+  forall p, prog_wfb p = true ->
+  forall use_asm asm (Init : store -> Prop) init, (forall s, Init s -> genv init s) ->
+  forall delay desc fuel maxthr live ex e0 entry w e,
+  build (p_graph p) e0 = Some w -> In entry (flat w) ->
+  fwd_run_full p w entry delay desc maxthr live ex use_asm asm fuel init = Some e ->
+  (forall n s, ReachPre p entry use_asm asm Init n s -> genv (e_pre env e n) s) /\
+  (forall n s, ReachPost p entry use_asm asm Init n s -> genv (e_post env e n) s).
+Proof. exact fwd_run_full_sound. Qed.
+Print Assumptions C01_engine_sound_thresholds_liveness.
+
+(* any per-head threshold sets, any per-block dead sets, any ordering satisfying property C07 *)
+Theorem C01_engine_sound_any_thresholds_any_dead_sets :
+  forall p, prog_wfb p = true ->
+  forall use_asm asm (Init : store -> Prop) init, (forall s, Init s -> genv init s) ->
+  forall delay desc fuel use_thr t dead e0 nst dom w entry e,
+  WF (p_graph p) e0 w nst dom ->
+  In entry (flat w) ->
+  fwd_run_gen use_thr t dead p w entry delay desc use_asm asm fuel init = Some e ->
+  (forall n s, ReachPre p entry use_asm asm Init n s -> genv (e_pre env e n) s) /\
+  (forall n s, ReachPost p entry use_asm asm Init n s -> genv (e_post env e n) s).
+Proof. exact fwd_run_gen_sound_WF. Qed.
+Print Assumptions C01_engine_sound_any_thresholds_any_dead_sets.
+
+Theorem C01_engine_thresholds_liveness_bottom_block_never_entered :
+  forall p, prog_wfb p = true ->
+  forall use_asm asm (Init : store -> Prop) init, (forall s, Init s -> genv init s) ->
+  forall delay desc fuel maxthr live ex e0 entry w e,
+  build (p_graph p) e0 = Some w -> In entry (flat w) ->
+  fwd_run_full p w entry delay desc maxthr live ex use_asm asm fuel init = Some e ->
+  forall n, e_is_bot (e_pre env e n) = true -> forall s, ~ ReachPre p entry use_asm asm Init n s.
+Proof. exact fwd_run_full_bottom_unreachable. Qed.
+Print Assumptions C01_engine_thresholds_liveness_bottom_block_never_entered.
+
+(* the table checker for the pruned transformer (used on the implementation's tables when live=1) *)
+Theorem C01_checked_tables_sound_liveness :
+  forall p use_asm asm (Init : store -> Prop) init, (forall s, Init s -> genv init s) ->
+  forall live ex entry pre post,
+  fwd_check_full live ex p entry use_asm asm init pre post = true ->
+  (forall n s, ReachPre p entry use_asm asm Init n s -> genv (pre n) s) /\
+  (forall n s, ReachPost p entry use_asm asm Init n s -> genv (post n) s).
+Proof. exact fwd_check_full_sound. Qed.
+Print Assumptions C01_checked_tables_sound_liveness.
+
+(* x := 0; while (nondet) { if (x <= 9) x := x + 1 }: plain widening leaves [0,+oo] at the head
+   (the descending iteration does not help), the threshold 10 collected from `assume x <= 9`
+   gives [0,10]; both runs are sound *)
+Example C01_thresholds_example :
+  let p := ex_thr_prog in
+  prog_wfb p = true /\
+  exists w e0 e10, build (p_graph p) 0 = Some w /\
+    prog_thr 10 p w 1 = [MInf; Fin 0; Fin 10; PInf] /\
+    fwd_run_full p w 0 1 1 0 false None false (fun _ => None) 100 e_top = Some e0 /\
+    fwd_run_full p w 0 1 1 10 false None false (fun _ => None) 100 e_top = Some e10 /\
+    e_at (e_pre env e0 1) 0%N = mkI (Fin 0) PInf /\
+    e_at (e_pre env e10 1) 0%N = mkI (Fin 0) (Fin 10) /\
+    e_at (e_pre env e10 4) 0%N = mkI (Fin 0) (Fin 10) /\
+    forall s, ReachPre p 0 false (fun _ => None) (fun _ => True) 4 s -> genv (e_pre env e10 4) s.
+Proof. exact fwd_run_full_thresholds_example. Qed.
+Print Assumptions C01_thresholds_example.
+
+(* b0: x := 5; y := x + 1   b1: y := y + 1 (exit): x is dead at the end of b0 and is forgotten
+   there when live = true; y is kept *)
+Example C01_liveness_pruning_example :
+  let p := ex_live_prog in
+  prog_wfb p = true /\
+  prog_dead true p (Some 1) 0 = [0%N] /\ prog_dead true p (Some 1) 1 = [] /\
+  exists w e el, build (p_graph p) 0 = Some w /\
+    fwd_run_full p w 0 2 1 0 false (Some 1) false (fun _ => None) 10 e_top = Some e /\
+    fwd_run_full p w 0 2 1 0 true (Some 1) false (fun _ => None) 10 e_top = Some el /\
+    e_at (e_post env e 0) 0%N = mkI (Fin 5) (Fin 5) /\
+    e_at (e_post env el 0) 0%N = itop /\
+    e_at (e_post env el 0) 1%N = mkI (Fin 6) (Fin 6) /\
+    e_at (e_post env el 1) 1%N = mkI (Fin 7) (Fin 7) /\
+    forall s, ReachPost p 0 false (fun _ => None) (fun _ => True) 1 s -> genv (e_post env el 1) s.
+Proof. exact fwd_run_full_pruning_example. Qed.
+Print Assumptions C01_liveness_pruning_example.
